@@ -332,6 +332,10 @@ default_conversions = {'DS' : float,
                        'OW or OB' : get_text,
                        'OB or OW' : get_text,
                        'UN' : get_text,
+                       'OF' : get_text,
+                       'OD' : get_text,
+                       'OL' : get_text,
+                       'OV' : get_text,
                        'PN' : unicode_str,
                        'UI' : unicode_str,
                       }
